@@ -47,7 +47,7 @@ func trim(s string) string {
 
 func (x *exec) monitorLock(s *State, p PtrV, write bool, pos token.Pos) {
 	c := x.e.C
-	k := lockKeyOf(p)
+	k := x.e.lockKeyOf(p)
 	if k == "" {
 		return
 	}
@@ -64,7 +64,7 @@ func (x *exec) monitorLock(s *State, p PtrV, write bool, pos token.Pos) {
 
 func (x *exec) monitorUnlock(s *State, p PtrV, write bool, pos token.Pos) {
 	c := x.e.C
-	k := lockKeyOf(p)
+	k := x.e.lockKeyOf(p)
 	if k == "" {
 		return
 	}
